@@ -38,23 +38,23 @@ CMaxPct(b, lvtol) == IF Vn(b) < 1000 THEN (IF lvtol = 10 THEN 110 ELSE 105) ELSE
 CMinPct(b) == IF Vn(b) < 1000 THEN 95 ELSE 100
 CPct(b, cfg) == IF cfg.case = "max" THEN CMaxPct(b, cfg.lvtol) ELSE CMinPct(b)
 
-\* currents.py:130-147 (_current_source_current): "sgen current source contribution only for Type A and case max";
-\* the contribution IKSS2 is added for 3ph, 2ph (currents.py:87-89) and 1ph (currents.py:127, results.py:86).
+\* currents.py:131-140 (_current_source_current): "sgen current source contribution only for Type A and case max";
+\* the contribution IKSS2 is added for 3ph, 2ph (currents.py:86-88) and 1ph (currents.py:128, results.py:88).
 CurrentSourceActive(cfg) == cfg.sgen /\ cfg.case = "max"
 \* the predicate the property's clauses use ("without current-source contributions"): no sgen in service at all
 \* (conservative: it implies ~CurrentSourceActive, model invariant ConservativeCS)
 NoCurrentSource(cfg) == ~cfg.sgen
 
-\* test/shortcircuit/test_1ph.py:361 "1ph gen-close sc calculation still under develop": not a supported input
+\* test/shortcircuit/test_1ph.py:350, :361 "1ph gen-close sc calculation still under develop": not a supported input
 Supported(cfg, fault) == ~(fault = "1ph" /\ cfg.gen)
 
-\* the public call that realises (cfg, run): calc_sc.py:30-34 (argument names), net.sn_mva set before the call
+\* the public call that realises (cfg, run): calc_sc.py:29-33 (argument names), net.sn_mva set before the call
 Topology(ipm) == IF ipm = "radial" THEN "radial" ELSE "auto"
 KappaMethod(ipm) == IF ipm = "B" THEN "B" ELSE "C"
 CallOf(cfg, run) == [fault |-> run.fault, case |-> cfg.case, lv_tol_percent |-> cfg.lvtol, ip |-> cfg.ipm # "off",
                      topology |-> Topology(cfg.ipm), kappa_method |-> KappaMethod(cfg.ipm), branch_results |-> cfg.branch,
                      inverse_y |-> run.inv, bus |-> run.buses, sn_mva |-> run.sn]
-\* results.py:115 (net.res_bus_sc = net.res_bus_sc.loc[bus, :]): one row per requested (in-service) bus
+\* results.py:112 (net.res_bus_sc = net.res_bus_sc.loc[bus, :]): one row per requested (in-service) bus
 ReportedRows(run) == run.buses
 
 \* ---- runs, pairs of runs ----------------------------------------------------------------------------------------
@@ -89,7 +89,7 @@ Required(cfg, run, ref, kind) == (IF kind = PrimaryKind(run) THEN ReqSingle(cfg,
 \* ---- the relations (wide integers, observation x -> round(x * 10^10)) ---------------------------------------------
 RelSq == 10             \* ppm: relative 1e-5 for the squared relations
 RelEq == 1              \* ppm: relative 1e-6 for equality between two runs ...
-AbsEq == 100            \* ... plus 1e-8 absolute (the code zeroes p.u. magnitudes below 1e-10, currents.py:71)
+AbsEq == 100            \* ... plus 1e-8 absolute (the code zeroes p.u. magnitudes below 1e-10, currents.py:72)
 UnW(b) == WShift(WScale(WInt(Vn(b)), 1000), 1)                                      \* Un [kV] * 10^10
 \* ikss = c*Un/(sqrt(3)*|Zk|)   <=>   3 * ikss^2 * (rk^2 + xk^2) = c^2 * Un^2                     (scale 10^40)
 IkssRel(b, cfg, I, R, X) ==
@@ -100,7 +100,7 @@ SkssRel(b, S, I) == WRelClose(WShift(WSq(S), 5), WScale(WMul(WSq(UnW(b)), WSq(I)
 \* ikss_2ph = sqrt(3)/2 * ikss_3ph   <=>   4 * ikss_2ph^2 = 3 * ikss_3ph^2
 RatioRel(I2, I3) == WRelClose(WScale(WSq(I2), 4), WScale(WSq(I3), 3), RelSq)
 \* ip = kappa*sqrt(2)*ikss, kappa in [1.02, 2]   <=>   2*1.02^2 * ikss^2 <= ip^2 <= 8 * ikss^2.  With an active current
-\* source ip = sqrt(2)*(kappa*IKSS1 + IKSS2) and ikss = IKSS1 + IKSS2 (currents.py:87, :196; IEC 60909-0:2016 eq. for
+\* source ip = sqrt(2)*(kappa*IKSS1 + IKSS2) and ikss = IKSS1 + IKSS2 (currents.py:88, :218; IEC 60909-0:2016 eq. for
 \* full-converter units), so the effective factor lies in [1, 2]: lower bound 2 * ikss^2.
 IpLowE4(cfg) == IF CurrentSourceActive(cfg) THEN 20000 ELSE 20808
 IpRel(cfg, P, I) == /\ IsW(P) /\ IsW(I)
